@@ -1,9 +1,11 @@
-(* C21 - build errors point at a real location.  Part about the template
-   lexer: every token lies inside the source (proved for all byte strings);
-   its line and column are those of its offset except in enumerated branches
-   of the lexer, each refuted here by a witness replayed on the real code. *)
+(* C21 - build errors point at a real location.  Part about the lexer: every
+   token lies inside the source (proved for all byte strings); its line and
+   column are those of its offset (token_pos_correct, proved for all byte
+   strings) except in enumerated branches of the lexer, which the model marks
+   with ghost flags and each of which is refuted here by a witness replayed on
+   the real code. *)
 From Verif Require Import Bytes Facts_lexer Facts_unicode LexBase LexCodeM LexerM LexTables LexPos
-  LexBase_proofs LexCode_proofs Lexer_proofs LexTop_proofs.
+  LexBase_proofs LexCode_proofs Lexer_proofs LexTop_proofs LexProg_proofs LexPosBase_proofs LexPosCode_proofs LexPosScan_proofs.
 Open Scope N_scope.
 
 (* Full statement over the lexer model: offsets in range with the empty token
@@ -36,7 +38,75 @@ Theorem C21_error_offset_partial :
 Proof. exact error_offset. Qed.
 Print Assumptions C21_error_offset_partial.
 
-(* the other half is false of the faithful model: witnesses *)
+(* ---- line and column ---- *)
+(* token_pos_correct.  The lexer model carries two ghost flags per token
+   (t_ldev: the branch that sent it, or an earlier one, lost count of the
+   lines; t_cdev: of the columns since the last new line), set exactly in the
+   branches listed in KNOWN_FINDINGS.txt (signatures linecol:...) and refuted below.  For
+   every source made of bytes, every format, noParseShow on or off and Unicode
+   tables for which the replacement character and the new line are neither
+   letters nor digits (true of the tables of Go: C21_go_unicode_sane), every
+   token the lexer sends - also before a lexer error - whose line flag is
+   clear has the line of its offset, and if its column flag is clear too, the
+   column of its offset: line = 1 + number of new lines before the offset,
+   column = 1 + number of bytes that start a character (not 10xxxxxx) since
+   the last new line (LexPos.linecol; an inserted semicolon stands for the
+   byte after its offset). *)
+Definition token_pos_correct_statement : Prop :=
+  forall (U : unitab) (noParseShow : bool) (format : N) (src : bytes) toks err,
+    U_sane U -> is_bytes src = true ->
+    scan_template U noParseShow format src = Done toks err ->
+    forall t, In t toks -> t_ldev t = false ->
+      t_line t = fst (linecol src (tok_off t)) /\
+      (t_cdev t = false -> t_col t = snd (linecol src (tok_off t))).
+
+Theorem C21_token_pos_correct : token_pos_correct_statement.
+Proof. exact token_pos_correct. Qed.
+Print Assumptions C21_token_pos_correct.
+
+(* the executable check evaluated by the correspondence (posok) is the theorem *)
+Theorem C21_posok_holds :
+  forall (noParseShow : bool) (format : N) (src : bytes) toks err,
+    is_bytes src = true ->
+    scan_template go_unicode noParseShow format src = Done toks err -> forallb (tok_pos_ok src) toks = true.
+Proof. exact (fun ns fmt src toks err Hb H => token_pos_check go_unicode ns fmt src toks err go_unicode_sane Hb H). Qed.
+Print Assumptions C21_posok_holds.
+
+Theorem C21_go_unicode_sane : U_sane go_unicode.
+Proof. exact go_unicode_sane. Qed.
+
+(* the same for the program lexer (scanProgram); its only flagged branches are
+   the comments, rune literals of several bytes and a byte order mark at the
+   start of the source, which takes no column *)
+Theorem C21_program_token_pos_correct :
+  forall (U : unitab) (src : bytes) toks err,
+    U_sane U -> scan_program U src = Done toks err ->
+    forall t, In t toks -> t_ldev t = false ->
+      t_line t = fst (linecol src (tok_off t)) /\
+      (t_cdev t = false -> t_col t = snd (linecol src (tok_off t))).
+Proof.
+  exact (fun U src toks err HU H t Ht Hld =>
+    proj1 (Forall_forall (tok_ok src) toks) (program_tokens_pos U src toks err HU H) t Ht Hld).
+Qed.
+Print Assumptions C21_program_token_pos_correct.
+
+(* the flagged branch of the program lexer that templates do not have: a
+   byte order mark at the start of the source, "\xef\xbb\xbfx" *)
+Example C21_program_bom_column :
+  match scan_program go_unicode [239;187;191;120] with
+  | Done (t :: _) None => t_col t = 1 /\ snd (linecol [239;187;191;120] (tok_off t)) = 2 /\ t_cdev t = true
+  | _ => False
+  end.
+Proof. vm_compute. repeat split. Qed.
+
+(* offsets of the program lexer's tokens *)
+Theorem C21_program_token_offsets_partial :
+  forall (U : unitab) (src : bytes) toks err,
+    scan_program U src = Done toks err -> forall t, In t toks -> tok_in (nlen src) t.
+Proof. exact program_token_offsets. Qed.
+Print Assumptions C21_program_token_offsets_partial.
+
+(* the unflagged statement is false of the faithful model: witnesses *)
 Definition has_wrong_pos (format : N) (src : bytes) : bool :=
   match scan_template go_unicode false format src with
   | Done toks _ =>
@@ -90,3 +160,13 @@ Print Assumptions C21_statement_refuted.
 Example C21_example :
   has_wrong_pos 1 [60;97;32;104;114;101;102;61;34;195;169;10;123;123;32;120;32;125;125;34;62;10;123;37;32;105;102;32;97;32;37;125] = false.
 Proof. vm_compute. reflexivity. Qed.
+
+(* the hypotheses of token_pos_correct are satisfiable and its conclusion is
+   not vacuous: a source with tokens whose flags are clear on several lines *)
+Example C21_example_pos :
+  U_sane go_unicode /\ is_bytes [60;97;32;104;114;101;102;61;34;195;169;10;123;123;32;120;32;125;125;34;62] = true /\
+  match scan_template go_unicode false 1 [60;97;32;104;114;101;102;61;34;195;169;10;123;123;32;120;32;125;125;34;62] with
+  | Done toks None => existsb (fun t => negb (t_ldev t) && negb (t_cdev t) && (t_line t =? 2)) toks = true
+  | _ => False
+  end.
+Proof. split; [exact go_unicode_sane|]. split; vm_compute; reflexivity. Qed.
